@@ -163,6 +163,20 @@ func (h *PortMappingHandler) CleanPortMapping(ports []k8s.Port) error {
 
 	natLines := append(natChains.Bytes(), natRules.Bytes()...)
 
+	for _, containerPort := range ports {
+		// iptables -C of a rule which jumps to a missing chain is an error, not "rule does not exist". The chains
+		// are missing if setup failed before creating them or if a previous cleanup has deleted them, make sure
+		// they exist so that cleanup can be repeated. They are deleted by the restore below.
+		hostportChain := hostportChainName(containerPort, containerPort.PodName)
+		if err := h.withRetry(func() error {
+			_, err := h.EnsureChain(utiliptables.TableNAT, hostportChain)
+			return err
+		}); err != nil {
+			err = fmt.Errorf("failed to ensure chain %s: %v", hostportChain, err)
+			glog.Warning(err)
+			return err
+		}
+	}
 	for _, rule := range kubeHostportsChainRules {
 		if err := h.withRetry(func() error {
 			return h.DeleteRule(utiliptables.TableNAT, kubeHostportsChain, rule...)
